@@ -8,6 +8,8 @@ CONSTANTS
   SrvMayClose = TRUE
   Reactions <- SomeReactions
   HandlerReconnect = TRUE
+  SrvMayStall = FALSE
+  ShutdownBoth = TRUE
   Fixed = TRUE
   Emit = FALSE
 INVARIANT AtMostOneInIo
